@@ -698,6 +698,10 @@ def c11(tier, seed):
     env_gen(ck, "gen_menv_records_modify", kind="menv", seeds=s, Ticks=(1, 1), NLevels=2, Ops=["new", "modify", "step"], Kinds=["L"], Prices=[10, 11], Vols=[1],
             ModPrices=[10, 11], ModVolsAbs=[-1], MaxSubmits=3, MaxBatch=2, MaxSteps=2 if q else 3, MaxOrders=2,
             need=("multi_step", "has_modify"), timeout=400 if q else 1800)
+    # the lower end of the price range: bids resting at price 0 (a valid grid price that is also the "no bid" sentinel) inside the
+    # published levels, recorded step by step
+    env_gen(ck, "gen_env_records_low", kind="env", seeds=s, NLevels=3, Ops=["new", "cancel", "step"], Kinds=["L"], Prices=[0, 1, 2], Vols=[1, 2],
+            MaxSubmits=3, MaxBatch=3, MaxSteps=2, MaxOrders=3, need=("multi_step", "has_trade"), timeout=400 if q else 1800)
     env_gen(ck, "gen_env_records_l10", kind="env", seeds=s, NLevels=10, Ops=["new", "step"], Kinds=["L"], Prices=[10, 13, 19], Vols=[1, 2],
             Sides=["B", "A"], MaxSubmits=3, MaxBatch=2, MaxSteps=2, MaxOrders=3, need=("multi_step",), timeout=400 if q else 1800)
     # random runs: every level count the harness instantiates, up to 4 assets, many steps; all series compared in full at audit events
